@@ -272,6 +272,42 @@ def run(rep, facts, tier):
             '(`"h\u00e9llo" length` is 6, `"h\u00e9llo" 0 5 slice` is the whole string)' % ([c for c, _, _ in str_lens] or 'nothing recognisable'),
             lf.name, (str_lens or [(0, 0, lf.j['span'])])[0][2])
 
+    # foreach: the collection is taken off the stack by the first instruction of the loop BODY (foreach_next, at index 0).  A
+    # counted loop over an empty range skips its body, so for an empty collection the word that prepares the range
+    # (foreach_init) has to take it off itself - otherwise `[ ] foreach .. loop` leaves its argument behind
+    fi, fnx = fx.fns.get('state::foreach_init'), fx.fns.get('state::foreach_next')
+    if fi is None or fnx is None:
+        raise MissingAnchor('state::foreach_init / foreach_next')
+    from .c08 import guard_facts
+    from ..zone import strip as zstrip
+    next_pops = any(callee_of(t) == 'state::State::pop_data' for _, t in fnx.calls())
+    fiv = inline.View(fx)('state::foreach_init')
+    init_pops_on_empty = False
+    for bb, t in fiv.calls():
+        if callee_of(t) in ('state::State::pop_data', 'state::State::drop_data'):
+            for (op, a, b) in guard_facts(fiv, bb):
+                sa, sb = expr_str(zstrip(a), -12), expr_str(zstrip(b), -12)
+                if op == 'Eq' and ('0' in (sa, sb)) and any(k in sa + sb for k in ('::len', '::size', 'is_empty')):
+                    init_pops_on_empty = True
+                if str(op) == 'IsEmpty' and b is True:
+                    init_pops_on_empty = True
+    okf = (not next_pops) or init_pops_on_empty
+    rep.add('C12.R3', 'C12.R3:foreach:empty-collection-consumed', okf,
+            'foreach_init takes an empty collection off the stack itself' if okf else
+            'foreach_next (first instruction of the body) pops the collection, and nothing pops it when the body is skipped: '
+            '`0 [ ] foreach I + loop` leaves `0 [ ]`, a non-empty vector leaves the sum alone', fi.name, fi.j['span'])
+    # slice clamps out-of-range indices, so no integer index may make it fail: its index arguments must not go through a
+    # conversion that rejects values beyond the machine word
+    sl = fx.fns.get('state::core_word_slice')
+    if sl is None:
+        raise MissingAnchor('state::core_word_slice')
+    slv = inline.View(fx)('state::core_word_slice')
+    rej = sorted({short(callee_of(t)) for _, t in slv.calls() if callee_of(t) in ('cell::Cell::to_isize', 'cell::Cell::to_usize')})
+    rep.add('C12.R4', 'C12.R4:slice:indices-clamp-not-fail', not rej,
+            'the indices are taken as integers of any size and clamped' if not rej else
+            'slice converts its indices with %s, which fails for values beyond the machine word, although every out-of-range index is '
+            'supposed to clamp (`[ 1 2 3 ] 0 <2^100> slice`)' % rej, sl.name, sl.j['span'])
+
     # ---------- R4 (continued): index arguments reach the sequence words unchanged
     from .. import casts
     from .c08 import build_zone, type_of_operand
